@@ -271,7 +271,7 @@ func (e *Env) opts(o Opts) []z.TestOption {
 		for k, v := range o.Params {
 			m[k] = v
 		}
-		out = append(out, z.Params(m))
+		out = append(out, z.Params(own(e, m)))
 	}
 	return out
 }
@@ -372,15 +372,32 @@ type sharedSchema struct {
 // rotatedStruct returns the struct type with its fields rotated by k: the same
 // field names and types in another declaration order (a different Go type
 // that one schema object may legitimately be used with).
-func rotatedStruct(t reflect.Type, k int) reflect.Type {
-	if t.Kind() != reflect.Struct || t.NumField() < 2 || k%t.NumField() == 0 || t == reflect.TypeOf(time.Time{}) {
+func rotatedStruct(t reflect.Type, k int) reflect.Type { return RetaggedStruct(t, nil, k) }
+
+// RetaggedStruct rebuilds a struct type with the struct tags of node n's fields
+// (n == nil: tags kept) and its fields rotated by k.
+func RetaggedStruct(t reflect.Type, n *Node, k int) reflect.Type {
+	if t.Kind() != reflect.Struct || t == reflect.TypeOf(time.Time{}) {
 		return t
 	}
-	n := t.NumField()
-	fields := make([]reflect.StructField, n)
-	for i := 0; i < n; i++ {
-		f := t.Field((i + k) % n)
-		fields[i] = reflect.StructField{Name: f.Name, Type: f.Type, Tag: f.Tag}
+	nf := t.NumField()
+	if nf == 0 || (n == nil && (nf < 2 || k%nf == 0)) {
+		return t
+	}
+	tags := map[string]reflect.StructTag{}
+	if n != nil {
+		for _, f := range n.Fields {
+			tags[f.GoName()] = reflect.StructTag(TagString(f.Tags))
+		}
+	}
+	fields := make([]reflect.StructField, nf)
+	for i := 0; i < nf; i++ {
+		f := t.Field((i + k) % nf)
+		tag := f.Tag
+		if nt, ok := tags[f.Name]; ok {
+			tag = nt
+		}
+		fields[i] = reflect.StructField{Name: f.Name, Type: f.Type, Tag: tag}
 	}
 	return reflect.StructOf(fields)
 }
@@ -393,7 +410,8 @@ func Build(n *Node, e *Env) (z.ZogSchema, reflect.Type) {
 			e.shared = map[int]sharedSchema{}
 		}
 		if sh, ok := e.shared[n.ShareID]; ok {
-			return sh.s, rotatedStruct(sh.t, n.TypeRot)
+			// the schema object is reused; the destination type at this use carries this use's tags and field order
+			return sh.s, RetaggedStruct(sh.t, n, n.TypeRot)
 		}
 		s, t := build(n, e)
 		e.shared[n.ShareID] = sharedSchema{s, t}
@@ -555,7 +573,14 @@ func build(n *Node, e *Env) (z.ZogSchema, reflect.Type) {
 			case "len":
 				s.Len(ts.N, o...)
 			case "contains":
-				s.Contains(reflect.ValueOf(ts.Arg.Go()).Convert(et).Interface(), o...)
+				if et.Kind() == reflect.Pointer {
+					// the needle is a pointer of its own: membership is by deep equality, not pointer identity
+					needle := reflect.New(et.Elem())
+					needle.Elem().Set(reflect.ValueOf(ts.Arg.Go()).Convert(et.Elem()))
+					s.Contains(needle.Interface(), o...)
+				} else {
+					s.Contains(reflect.ValueOf(ts.Arg.Go()).Convert(et).Interface(), o...)
+				}
 			case "func":
 				s.TestFunc(e.testFunc(n, i, ts.Str), o...)
 			default:
@@ -577,15 +602,85 @@ func build(n *Node, e *Env) (z.ZogSchema, reflect.Type) {
 		for _, x := range n.Extra {
 			fields = append(fields, reflect.StructField{Name: x, Type: reflect.TypeOf("")})
 		}
-		s := z.Struct(sm)
-		for i, ts := range n.Tests {
-			if ts.Name != "func" {
-				panic("model: struct test " + ts.Name)
+		// addTests / addPosts attach the tests / PostTransforms with indices in [from, to) in declaration order
+		addTests := func(s *z.StructSchema, from, to int) {
+			for i := from; i < to && i < len(n.Tests); i++ {
+				ts := n.Tests[i]
+				if ts.Name != "func" {
+					panic("model: struct test " + ts.Name)
+				}
+				s.TestFunc(e.testFunc(n, i, ts.Str), e.opts(ts.Opts)...)
 			}
-			s.TestFunc(e.testFunc(n, i, ts.Str), e.opts(ts.Opts)...)
 		}
-		for i, ps := range n.Posts {
-			s.PostTransform(e.postFunc(n, i, ps))
+		addPosts := func(s *z.StructSchema, from, to int) {
+			for i := from; i < to && i < len(n.Posts); i++ {
+				s.PostTransform(e.postFunc(n, i, n.Posts[i]))
+			}
+		}
+		// chunks splits k items into three contiguous runs, filled from the LAST operand backwards (a single
+		// item sits on the third operand); concatenation in operand order restores the declaration order
+		chunks := func(k int) [4]int {
+			c2 := (k + 2) / 3
+			c1 := (k - c2 + 1) / 2
+			c0 := k - c2 - c1
+			return [4]int{0, c0, c0 + c1, k}
+		}
+		keys := make([]string, 0, len(n.Fields))
+		for _, f := range n.Fields {
+			keys = append(keys, f.Key)
+		}
+		var s *z.StructSchema
+		switch n.Via {
+		case "merge":
+			// three operands: fields dealt round-robin, tests and PostTransforms too (Merge keeps and concatenates them)
+			parts := []z.Schema{{}, {}, {}}
+			for i, k := range keys {
+				parts[i%3][k] = sm[k]
+			}
+			ops := make([]*z.StructSchema, 3)
+			tc, pc := chunks(len(n.Tests)), chunks(len(n.Posts))
+			for j := range ops {
+				ops[j] = z.Struct(parts[j])
+				addTests(ops[j], tc[j], tc[j+1])
+				addPosts(ops[j], pc[j], pc[j+1])
+			}
+			s = ops[0].Merge(ops[1], ops[2])
+		case "extend":
+			half := len(keys) / 2
+			a, b := z.Schema{}, z.Schema{}
+			for i, k := range keys {
+				if i < half {
+					a[k] = sm[k]
+				} else {
+					b[k] = sm[k]
+				}
+			}
+			base := z.Struct(a)
+			addTests(base, 0, len(n.Tests))
+			addPosts(base, 0, len(n.Posts))
+			s = base.Extend(b)
+		case "omit", "pick":
+			// a superset with two decoy fields (no destination field is needed for keys that are removed again)
+			super := z.Schema{"zzDecoy1": z.String().Required(), "zzDecoy2": z.Int().Required()}
+			for k, v := range sm {
+				super[k] = v
+			}
+			base := z.Struct(super)
+			addTests(base, 0, len(n.Tests))
+			addPosts(base, 0, len(n.Posts))
+			if n.Via == "omit" {
+				s = base.Omit("zzDecoy1", map[string]bool{"zzDecoy2": true})
+			} else {
+				args := make([]any, 0, len(keys))
+				for _, k := range keys {
+					args = append(args, k)
+				}
+				s = base.Pick(args...)
+			}
+		default:
+			s = z.Struct(sm)
+			addTests(s, 0, len(n.Tests))
+			addPosts(s, 0, len(n.Posts))
 		}
 		return s, reflect.StructOf(fields)
 	case KPtr:
